@@ -293,12 +293,30 @@ def r3(ctx):
     N = Norm(strict=False)
     tenv = {k: v for k, v in single_defs(f.node).items() if isinstance(v, (ast.Compare, ast.BoolOp, ast.UnaryOp))}
     test = inline(iff.test, tenv)
-    names = sorted(names_in(test) - {"batch_size"})
+    def paths_in(e):
+        """the variables of an expression: maximal name / attribute paths (a record's field `step.plate_index` is one variable)"""
+        out, inner_ = set(), set()
+        for x in ast.walk(e):
+            if isinstance(x, ast.Attribute):
+                r_ = x
+                while isinstance(r_, ast.Attribute):
+                    r_ = r_.value
+                if isinstance(r_, ast.Name):
+                    out.add(U(x))
+                    y = x.value
+                    while isinstance(y, ast.Attribute):
+                        inner_.add(U(y))
+                        y = y.value
+                    inner_.add(U(y))
+            elif isinstance(x, ast.Name):
+                out.add(x.id)
+        return out - inner_
+    names = sorted(paths_in(test) - {"batch_size"})
     ctx.need(len(names) == 1, f"{f.site()}: successor test reads {names}")
     p = names[0]
     then = {U(x.targets[0]): x.value for x in iff.body if isinstance(x, ast.Assign)}
     els = {U(x.targets[0]): x.value for x in iff.orelse if isinstance(x, ast.Assign)}
-    it_names = sorted((names_in(then.get(ni, ast.Constant(0))) | names_in(els.get(ni, ast.Constant(0)))))
+    it_names = sorted((paths_in(then.get(ni, ast.Constant(0))) | paths_in(els.get(ni, ast.Constant(0)))))
     ctx.need(len(it_names) == 1, f"{f.site()}: iteration variable not identified")
     i = it_names[0]
     cond_ok = N.b(test, integer=True) == N.b(parse_expr(f"{p} + 1 >= batch_size"), integer=True)
@@ -357,6 +375,8 @@ def r5(ctx):
         retro = "retrospective" in q
         scan = [nn for nn in walk_own(f.node) if isinstance(nn, ast.Assign) and isinstance(nn.value, ast.Call) and U(nn.value.func) == SCAN.split(".")[-1]]
         ctx.need(len(scan) == 1, f"{f.site()}: scan call not found")
+        ctx.need(isinstance(scan[0].targets[0], (ast.Tuple, ast.List)) and len(scan[0].targets[0].elts) == 4,
+                 f"{f.site()}: the scan's result is bound to `{U(scan[0].targets[0])}`, not unpacked into (iteration, plate, metadata, screen); the step's inputs are not read from that form")
         I, J, M, S = [U(t) for t in scan[0].targets[0].elts]
         out, inp = f.params[0], f.params[1]
         env = single_defs(f.node)
